@@ -20,7 +20,8 @@ def run(tier, seed):
                                  "--cpus", str(rng.choice([2, 4])), "--keys", str(rng.choice([4, 5])),
                                  "--ttl", "1", "--end", "drop", "--longkeys", "1",
                                  "--maximages", "200" if tier == "quick" else "1000"]
-                    + (["--sessions", "3"] if i % 3 == 2 or i % 4 == 0 else [])))
+                    + (["--sessions", "3", "--closedpct", "100" if i % 2 == 0 else "50"]
+                       if i % 3 == 2 or i % 4 == 0 else [])))
     viol, st, traces = ce.run_and_validate(PROP, fxv, rd, jobs, INV)
     # failing metadata writes: flush may only report success when the persisted counters are right
     base = ["--seed", str(rng.randrange(1 << 30)), "--steps", "25", "--fmt", "3", "--blocks", "40",
